@@ -503,6 +503,7 @@ func run(c *vh.Ctx) {
 	rn.rawSuite(n, thorough)
 	rn.flagMatrix()
 	rn.versionSweep()
+	rn.listShapes()
 	rn.identSweep()
 	rn.importSuite(n)
 	rn.jsonSuite(n)
